@@ -173,6 +173,15 @@ inductive Cmd
   | put (num : Nat) (pos : Option Nat)
   deriving Repr
 
+/-- The record that a (possibly fractional, non-negative) record-number value `n/d` denotes: nearest
+    integer, halves to even — Python `round()` of the single-precision value, as in `Files._check_pos`
+    (GET/PUT) and `Files._get_lock_limits` (LOCK/UNLOCK).  Both statements must use the same rounding, or
+    "the record LOCK n locks" is not "the record GET n reads". -/
+def roundHalfEven (n d : Nat) : Nat :=
+  let q := n / d
+  let r2 := 2 * (n % d)
+  if r2 < d then q else if r2 > d then q + 1 else if q % 2 = 0 then q else q + 1
+
 def maxLockRec : Nat := 2^25 - 2
 def maxRec : Nat := 2^25
 
